@@ -5,7 +5,8 @@
     source by tools/gen_finders.py.
 (S) the binary64 instantiation of the one generic evaluator (templates/Finders.lean) on the
     generated records against CPython, bit for bit: every ch. 36 finder from `y = epoch.year()` to
-    `Epoch(jde0 + corr).jde()` (and the elongation angle); the first approximation `jde` of every
+    `Epoch(jde0 + corr).jde()` (and the elongation angle), and on a quarter of the queries the whole chain from
+    the `_jde` of the query (Epoch.year modelled as well); the first approximation `jde` of every
     perihelion_aphelion (read from the abscissae handed to Interpolation).
 (I) the property's own predicates on the implementation, against the library's VSOP87 positions:
     the event occurs within 1 day (Mercury..Mars) / 2 days (beyond) of the returned instant;
@@ -41,7 +42,9 @@ ANGLE_TOL = 0.05
 FUNCTIONS = (['pymeeus/%s.py:%s.%s' % (p, p, m) for p in PLANETS for m in HAS36[p]]
              + ['pymeeus/%s.py:%s.perihelion_aphelion' % (p, p) for p in HASPA]
              + ['pymeeus/%s.py:%s.passage_nodes' % (p, p) for p in HASPA]
-             + ['pymeeus/Epoch.py:Epoch.year', 'pymeeus/Angle.py:Angle.reduce_deg', 'pymeeus/Angle.py:Angle.to_positive',
+             + ['pymeeus/Epoch.py:Epoch.year', 'pymeeus/Epoch.py:Epoch.get_doy', 'pymeeus/Epoch.py:Epoch.leap',
+                'pymeeus/Epoch.py:Epoch.is_leap', 'pymeeus/Epoch.py:Epoch.get_date', 'pymeeus/Epoch.py:Epoch._compute_jde',
+                'pymeeus/Epoch.py:Epoch.set', 'pymeeus/Angle.py:Angle.reduce_deg', 'pymeeus/Angle.py:Angle.to_positive',
                 'pymeeus/Angle.py:Angle.rad', 'pymeeus/Epoch.py:Epoch.get_full_date',
                 'pymeeus/Coordinates.py:passage_nodes_elliptic'])
 
@@ -62,15 +65,17 @@ MANIFEST = dict(
           "queries advancing by 1/20 period over eras (quick) or the whole of -2000..4000 (thorough), ValueError outside."),
     note=("Trusted: Lean kernel, Mathlib, axioms propext/Classical.choice/Quot.sound; the translator tools/gen_finders.py "
           "(rejects any statement shape it does not know; validated on every run by the bit-for-bit agreement of the "
-          "binary64 evaluation of its records with CPython); the hand-written generic evaluator; y = Epoch.year() is an "
-          "input of the model (not modelled); real arithmetic stands for binary64 in the theorems (idealisation measured, "
+          "binary64 evaluation of its records with CPython); the hand-written generic evaluator; y = Epoch.year() is a "
+          "real input of the theorems (Epoch.year is modelled and tied in binary64 only); real arithmetic stands for binary64 in the theorems (idealisation measured, "
           "not proved). Known findings: see findings.d/C13.json."),
     technique="Lean 4 proof over generated data records (generic lemma + kernel-decided side conditions) + bit-exact "
               "model/implementation correspondence + predicate evaluation against VSOP87 positions",
     ref='6 C13')
 
 TRUSTED = ['tools/gen_finders.py (ast translator; fails on unknown shapes; its records are validated by the bit-exact run)',
-           'y = epoch.year() is computed by the implementation and passed to the model (Epoch.year/get_doy not modelled here)',
+           'the theorems take y = epoch.year() as a real input; Epoch.year (get_date, get_doy with a stub for '
+           'datetime.date(...).timetuple().tm_yday, leap) and the final Epoch(jde) round trip are modelled in binary64 only '
+           'and tied bit for bit (cases finder_jde/*)',
            'perihelion_aphelion: only the first approximation jde is modelled; it is read from the abscissae the '
            'implementation passes to Interpolation (a recording subclass installed by the harness, /repo untouched)',
            'event predicates use the library\'s own VSOP87 positions (geocentric_position, Sun.apparent_geocentric_position, '
@@ -340,6 +345,11 @@ def tie36(ctx, finder, e, out, klass):
     ctx.case('finder', [finder, y], out, q=None, klass=klass)
 
 
+def tie36j(ctx, finder, e, out, klass):
+    """(S), whole chain: the model gets the `_jde` of the query epoch and runs its own Epoch.year() too."""
+    ctx.case('finder_jde', [finder, e.jde()], out, q=None, klass=klass)
+
+
 def impl36(finder, e):
     E = env()
     p, m = finder.split('.')
@@ -386,6 +396,8 @@ def sweep(ctx, finder, variant, q_start, q_end, step, tie_every=1, event_every=0
             out, res = impl36(finder, e)
             if i % tie_every == 0:
                 tie36(ctx, finder, e, out, 'finder/' + klass)
+            if i % (3 * tie_every) == 0:
+                tie36j(ctx, finder, e, out, 'finder_jde/' + klass)
             if res is None:
                 ctx.predicate('returns_instant', False, [finder, variant, qq], out, 'returns_instant/' + finder)
         else:
@@ -452,6 +464,7 @@ def range_checks(ctx, finder, n):
         ctx.predicate('range_refusal', ok, [finder, None, qq], {'outside': outside, 'got': out}, 'range_refusal/' + (
             'outside' if outside else 'inside'))
         tie36(ctx, finder, e, out, 'finder/range')
+        tie36j(ctx, finder, e, out, 'finder_jde/range')
 
 
 def leap_day_checks(ctx, finder, variant, years):
@@ -471,6 +484,7 @@ def leap_day_checks(ctx, finder, variant, years):
                 if kind == 'ch36':
                     out, res = impl36(finder, e)
                     tie36(ctx, finder, e, out, 'finder/leap_day')
+                    tie36j(ctx, finder, e, out, 'finder_jde/leap_day')
                     if res is None:
                         raise RuntimeError(out)
                     r = res[0]
@@ -489,27 +503,34 @@ def leap_day_checks(ctx, finder, variant, years):
 
 # ------------------------------------------------------------------ generate
 def tasks(ctx):
-    """The work of one run, as a list of (callable, args); task i is done by shard i mod 4."""
+    """The work of one run, as a list of (callable, args); task i is done by shard i mod 4.
+
+    `ctx.scale` > 1 (changed source, failing-input search) widens the cheap parts only - the sweeps and random
+    queries of the periodic-term finders - by at most 4; the VSOP87-bound parts keep their size so that a quick
+    run stays within minutes."""
     T = []
     b = bounds()
     thorough = ctx.tier == 'thorough'
-    big = thorough or ctx.scale > 1.0
+    sc = min(max(ctx.scale, 1.0), 4.0)
     centuries = [y for y in range(-2000, 1600, 100)]
+
+    def n(quick, thor):
+        return max(1, int((thor if thorough else quick) * sc))
     # ---- Meeus ch. 36 finders
     for f in FINDERS36:
         B = b[f]['B']
-        nper = ctx.n(14, 30)
+        nper = n(14, 30)
         for (lo, hi) in era_starts(ctx, B, nper):
-            T.append((sweep, (ctx, f, None, lo, hi, B / 20.0, 1, ctx.n(120, 60), 'era')))
+            T.append((sweep, (ctx, f, None, lo, hi, B / 20.0, 2 if sc == 1.0 else 4, 90 if thorough else int(120 * sc), 'era')))
         if thorough and ctx.scale <= 1.0:
             # the whole of -2000..4000 in steps of 1/20 period, in 6 slices (the sweeps are independent)
             for s in range(6):
                 lo = J_LO + (J_HI - J_LO) * s / 6.0
                 hi = J_LO + (J_HI - J_LO) * (s + 1) / 6.0 + B
-                T.append((sweep, (ctx, f, None, lo, min(hi, J_HI), B / 20.0, 8, 0, 'whole_range')))
-        T.append((range_checks, (ctx, f, ctx.n(40, 400))))
-        T.append((leap_day_checks, (ctx, f, None, centuries if big else centuries[::4] + [1500])))
-        T.append((random_queries, (ctx, f, None, ctx.n(60, 600), ctx.n(4, 40))))
+                T.append((sweep, (ctx, f, None, lo, min(hi, J_HI), B / 20.0, 12, 0, 'whole_range')))
+        T.append((range_checks, (ctx, f, n(40, 400))))
+        T.append((leap_day_checks, (ctx, f, None, centuries if thorough else centuries[::4] + [1500])))
+        T.append((random_queries, (ctx, f, None, n(60, 600), 40 if thorough else 4)))
     # ---- perihelion / aphelion, node passages
     for f in FINDERSPA + FINDERSND:
         P = b[f]['B']
@@ -519,14 +540,14 @@ def tasks(ctx):
             if P > 5000:       # Jupiter, Saturn, Uranus: few periods in 6000 years, sweep long stretches instead
                 wins = [(J_LO, J_LO + 2.2 * P), (J_HI - 2.2 * P, J_HI), (Epoch_jd(2000) - 1.1 * P, Epoch_jd(2000) + 1.1 * P),
                         (Epoch_jd(0) - 1.1 * P, Epoch_jd(0) + 1.1 * P)]
-                if big:
+                if thorough:
                     wins = [(J_LO + (J_HI - J_LO) * s / 6.0, J_LO + (J_HI - J_LO) * (s + 1) / 6.0) for s in range(6)]
-            elif big:
+            elif thorough:
                 wins = era_starts(ctx, P, 12 if P < 300 else 6)
             for (lo, hi) in wins:
                 T.append((sweep, (ctx, f, variant, lo, hi, P / 20.0, 1, 20 if P < 5000 else 1, 'era')))
-            T.append((leap_day_checks, (ctx, f, variant, centuries[::6] + [1500] if not big else centuries[::2])))
-            T.append((random_queries, (ctx, f, variant, ctx.n(10, 120), ctx.n(3, 30))))
+            T.append((leap_day_checks, (ctx, f, variant, centuries[::2] if thorough else centuries[::6] + [1500])))
+            T.append((random_queries, (ctx, f, variant, 120 if thorough else 10, 30 if thorough else 3)))
     return T
 
 
@@ -543,6 +564,7 @@ def random_queries(ctx, finder, variant, n, n_events):
         if kind == 'ch36':
             out, res = impl36(finder, e)
             tie36(ctx, finder, e, out, 'finder/random')
+            tie36j(ctx, finder, e, out, 'finder_jde/random')
         else:
             r, jde1 = implpa(finder, variant, e)
             res = None if isinstance(r, Exception) else r
